@@ -786,6 +786,12 @@ class C13(Property):
              "ops": [["spy", 0], ["sub", 0, 0, "api", True], ["sub", 1, 0, "rec", True], ["sub", 2, 0, "api", False],
                      ["put", "svc/k1", "v1"], ["put", "svc/k2", "v1"], ["put", "svc/k1", "v1"], ["del", "svc/k2"],
                      ["put", "svc/k3", "v1"], ["pause"], ["put", "svc/k1", "v1"], ["resume"], ["del", "svc/k3"]]},
+            # registrations through the real Publisher: KeepAlive, WithId, Pause / Resume, a lease that expires, Stop
+            # (Resume and the re-registration after an expiry cost the Publisher's own 1 s tick each)
+            {"kind": "cluster", "base": 1, "eps": 1, "watchers": [{"key": "svc", "exact": False}],
+             "ops": [["spy", 0], ["sub", 0, 0, "api", False], ["sub", 1, 0, "rec", True], ["pub", 1, "svc", "v1", 0],
+                     ["pub", 2, "svc", "v2", 7], ["ppause", 1], ["put", "svc/k0", "v0"], ["presume", 1], ["expire", 2],
+                     ["unpub", 1], ["closewatch"], ["unpub", 2]]},
             # the listener set changes WHILE a change is dispatched: closed from inside its own callback / from another
             # goroutine while the callback is held / a subscriber created from inside a callback; watch event and reload diff
             {"kind": "cluster", "base": 1, "eps": 1, "watchers": [{"key": "svc", "exact": False}],
